@@ -264,12 +264,14 @@ that makes a class unclassifiable (and would silently take it out of every theor
  * CurrentAttribute, NewAttribute, Attributes — the child's tag is peeked and may be ANY attribute tag the version
    defines (`enums.is_attribute`), the class comes from a factory;
  * ResponseBatchItem, RequestMessage, ResponseMessage — see `handDiffers`;
- * LocateRequestPayload, SignRequestPayload, SignResponsePayload — read() never calls `is_oversized`: trailing
+ * SignRequestPayload, SignResponsePayload — read() never calls `is_oversized`: trailing
    children are accepted and dropped (shown on the real code by schema_gen_check.py; decode-encode-decode is stable,
-   so not a round-trip violation, but no field list describes such a reader). -/
+   so not a round-trip violation, but no field list describes such a reader).  (LocateRequestPayload was in this
+   list until /repo ee214ee: for Locate the dropped children can be the FILTERS - a 2.0 Attributes structure under a
+   1.x header - which the later-field part of the C16 check showed on the real session; repaired, now translated.) -/
 def expectedUnrecognised : List String := [
   "ServerInformation", "CurrentAttribute", "NewAttribute", "Attributes", "KeyMaterialStruct", "ResponseBatchItem",
-  "RequestMessage", "ResponseMessage", "LocateRequestPayload", "SignRequestPayload", "SignResponsePayload"]
+  "RequestMessage", "ResponseMessage", "SignRequestPayload", "SignResponsePayload"]
 
 /-- **No class dropped out of the tables**: the set of unclassified classes is the documented one. -/
 theorem gen_unrecognised_expected : genUnrecognised = expectedUnrecognised := by decide
